@@ -18,6 +18,25 @@ CHECKS = {
              'construction dropped. Not covered: simple_arith_op (try/catch to message), parse_int literal range check.',
         technique='contract-based deductive verification: CBMC code contracts (goto-instrument --dfcc) on C lowered from the real C++ per run',
     ),
+    'C16': dict(
+        category='other',
+        text='Two layers on C text lowered per run from /repo/libzwerg/coverage.cc (std::vector replaced by a small trusted '
+             'model). (1) Contracts enforced by goto-instrument --dfcc with loop contracts, unbounded in the number of ranges: '
+             'find (both overloads), is_covered, is_overlap are memory safe, keep indices and iterators inside the vector, '
+             'have no arithmetic surprises and terminate. (2) BOUNDED stand-in for the functional part, because contract '
+             'instrumentation with looping spec functions exhausts memory: for sets of at most N ranges (N=1..4 quick, '
+             'larger in thorough) and ALL 64-bit addresses (one symbolic probe address), add/remove/intersect/add_all/'
+             'remove_all preserve the representation invariant (sorted, disjoint, non-adjacent, non-empty) and compute '
+             'union/difference/intersection pointwise; is_covered/is_overlap agree with the set view; find partitions; '
+             'structurally different canonical lists denote different sets. Bounded jobs are never counted as discharged '
+             'proof obligations.',
+        design_ref='DESIGN.md section 4 C16',
+        note='Trusted: cxx2c lowering (native differential test per run); props/c16/vecmodel.{h,c} as the contract of '
+             'std::vector<cov_range> (capacity fixed, growth not modelled); precondition start+length does not wrap; '
+             'is_covered/is_overlap specified for length>0. Not covered: the Zwerg words in builtin-aset.cc, value_aset::cmp, '
+             'rendering.',
+        technique='CBMC code contracts with loop contracts (unbounded safety) + bounded unwinding of the same extracted text against set-semantics postconditions',
+    ),
 }
 
 NOT_APPLICABLE = {
